@@ -30,7 +30,7 @@ EXTRA_MODULES = [('MpVerif.C01.PropsCompose', 'MpVerif/C01/PropsCompose.lean', C
                  ('MpVerif.C01.PropsObjective', 'MpVerif/C01/PropsObjective.lean', 9),
                  ('MpVerif.C01.PropsGenTie', 'MpVerif/C01/PropsGenTie.lean', 32),
                  # round 5: the reference converter is correct (C01_convert_equiv / _objective)
-                 ('MpVerif.C01.PropsConvert', 'MpVerif/C01/PropsConvert.lean', 5),
+                 ('MpVerif.C01.PropsConvert', 'MpVerif/C01/PropsConvert.lean', 7),
                  # statement audit (round 4): non-vacuity instances only, no C01_ theorems of its own
                  ('MpVerif.C01.PropsAudit', 'MpVerif/C01/PropsAudit.lean', 0)]
 
@@ -1406,6 +1406,7 @@ def run_gadgets(ck, n_cases=None, proof=True):
                   rcv['rows_compared'], rcv['with_aux_vars'], rcv['ref_refusal'], rcv['refusal_agree'], rcv['disagree'], rcv['drift'],
                   rcv['shortcut'], rcv['flagged_agree'], rcv['flagged_differ'], rcv['flagged_oracle_runs'], rcv['flagged_oracle_fail'],
                   rcv['outside_fragment_predicate'] + rcv['outside']))
+        ck.log('    flagged by clause of the reference converter (a pair can have several): ' + ', '.join('%s:%d' % kv for kv in sorted(rcv.get('flagged_why', {}).items())))
         ck.log('    by family: ' + '; '.join('%s: %s' % (f, ', '.join('%s %d' % kv for kv in d.items())) for f, d in rcv['by_family'].items()))
         ck.log('    definition kinds in compared models: ' + ', '.join('%s:%d' % kv for kv in sorted(rcv['def_kinds'].items())))
         for k, v in sorted(rcv['classes'].items()):
